@@ -155,6 +155,8 @@ def source_topics(beh, seq):
 
 
 def source_tokens(node_id, inc, beh, seq):
+    if beh.get('empty_mod') and seq % beh['empty_mod'] == beh.get('empty_rem', 1):
+        return {}                  # an empty frame set: only the id travels
     cs = beh.get('content', ['data'])
     return {t: {'o': node_id, 'oi': inc, 'seq': seq, 'tp': t, 'c': cs[(seq + i) % len(cs)]} for i, t in enumerate(source_topics(beh, seq))}
 
